@@ -147,6 +147,25 @@ pub fn build_tree(rng: &mut Lcg) -> Tree {
         std::fs::write(root.join(&rel), &content).unwrap();
         files.insert(rel, content);
     }
+    // one tree in three holds zero-length files (seed C06-14: a cache that cannot hold an item exactly as large as its
+    // limit panics for the empty file of a cache-less server), one in four a file exactly as large as the size limit of
+    // the cache-enabled directory route (1 MiB)
+    if rng.next() % 3 == 0 {
+        let d = dirs[(rng.next() % dirs.len() as u64) as usize].clone();
+        for rel in ["empty.txt".to_string(), if d.is_empty() { "zero".to_string() } else { format!("{}/zero.bin", d) }] {
+            if !files.contains_key(&rel) && !dirs.contains(&rel) {
+                std::fs::write(root.join(&rel), b"").unwrap();
+                files.insert(rel, Vec::new());
+            }
+        }
+    }
+    if rng.next() % 4 == 0 && !files.contains_key("limit.bin") {
+        let mut content = format!("FILE[limit.bin]#{}|", rng.next()).into_bytes();
+        let extra = rng.bytes((1 << 20) - content.len());
+        content.extend(extra);
+        std::fs::write(root.join("limit.bin"), &content).unwrap();
+        files.insert("limit.bin".to_string(), content);
+    }
     if like_routes {
         for rel in ["a.txt", "files/a.txt", "files/files/a.txt", "static/a.txt", "s/a.txt"] {
             if !files.contains_key(rel) {
